@@ -17,6 +17,7 @@ def run(ctx):
     r.rule_text = 'E1 panic-site inventory over the relative path parser'
     run_e1(ctx, ENTRY)
     flag_tables(ctx)
+    regex_arms_agree(ctx)
     escape_automaton(ctx)
     r.floor('flag-table-agreement', 'notation_tokens', r.counts.get('notation_tokens', 0), 10)
     r.floor('E1-panic', 'reachable_bodies', r.counts.get('reachable_bodies', 0), 8)
@@ -155,3 +156,59 @@ def escape_automaton(ctx, rule='escape-automaton'):
         r.ok(rule, 'tokenizer', 'escaped_char: set on an unescaped \'&\', cleared after the next character, boundaries only while unescaped', loc=b.loc)
     r.count('escape_sites', n)
     r.floor(rule, 'escape_sites', n, 4)
+
+
+def regex_arms_agree(ctx, rule='regex-arms-agree'):
+    """RelativePathElement::from_str matches on the text captured by the `flags` group of its regular expression and panics in
+    the fall-through arm.  That arm is dead only if the group can capture nothing but the strings the arms handle: the group
+    must be a plain alternation of literal strings, each of which is excluded on the way to the panic."""
+    import re
+    from ..facts import fmt_lit
+    r, db = ctx.r, ctx.db
+    ib = db.find_bodies(r'RelativePathElement>::from_str::RE as std::ops::Deref>::deref::__static_ref_initialize$')
+    qb = db.find_bodies(r'RelativePathElement>::from_str$')
+    if not ib or not qb:
+        r.lost(rule, 'regex', 'the regular expression of RelativePathElement::from_str was not found'); return
+    Fi = ctx.facts(ib[0])
+    pat = None
+    for c in ib[0].calls():
+        if c.callee.endswith('Regex::new') and c.args:
+            s_ = Fi.sym_operand(c.args[0])
+            while s_[0] in ('ref', 'deref'):
+                s_ = s_[1]
+            if s_[0] == 'k':
+                pat = s_[1]
+    if pat is None:
+        r.lost(rule, 'regex:pattern', 'constant pattern of Regex::new not found'); return
+    pat = pat.strip('"').replace('\\\\', '\\')
+    i = pat.find('(?P<flags>')
+    if i < 0:
+        r.lost(rule, 'regex:flags-group', 'no group named flags in the pattern'); return
+    j = i + len('(?P<flags>'); depth = 1; k = j
+    while k < len(pat) and depth:
+        if pat[k] == '\\':
+            k += 2; continue
+        depth += pat[k] == '('
+        depth -= pat[k] == ')'
+        k += 1
+    group = pat[j:k - 1]
+    q = qb[0]; Fq = ctx.facts(q)
+    panics = [bi for bi, blk in enumerate(q.blocks) if not blk['c'] and blk['t'][0] == 'call' and 'panic' in str(blk['t'][1]) and
+              any('"flags")' in fmt_lit(q, l) for l, e in Fq.literals_at(bi))]
+    if not panics:
+        r.ok(rule, 'flags', 'no panicking fall-through arm on the flags capture', loc=q.loc); return
+    excluded = set()
+    for bi in panics:
+        for l, e in Fq.literals_at(bi):
+            m = re.search(r'"flags"\)@Some\.0 ne "([^"]*)"$', fmt_lit(q, l))
+            if m:
+                excluded.add(m.group(1))
+    if re.search(r'[\[\]{}*+?.()\\^$]', group):
+        r.fail(rule, 'flags', 'the flags group `%s` is not a plain alternation of literal strings: it can capture text that none of the arms (%s) handles, which reaches '
+               'panic!("Error in regular expression for flags") on untrusted input' % (group, sorted(excluded)), loc=q.loc); return
+    alts = set(group.split('|'))
+    extra = sorted(alts - excluded)
+    if extra:
+        r.fail(rule, 'flags', 'the flags group can capture %s, which no arm handles: the fall-through panic is reachable from untrusted input' % extra, loc=q.loc)
+    else:
+        r.ok(rule, 'flags', 'the flags group captures only %s, all excluded before the fall-through arm' % sorted(alts), loc=q.loc)
